@@ -32,7 +32,10 @@ MANIFEST = {
             "complex_dot_product / reduce_operator / expand_operator / modulus / root_sum_of_squares (bridge lemmas, definitional), a "
             "translated table of all 61 coil-operator call sites and inline re-implementations under direct/ with a decided "
             "well-formedness predicate (coil_sites_wf; wf_site_axis / wf_inlineReduce_denotes / wf_inlineExpand_denotes hold for every "
-            "well-formed table), and by exact differential correspondence on integer-valued tensors of shape (b, c, [s], h, w, 2) with the "
+            "well-formed table), a translated table of call-surviving state (caching decorators, global / nonlocal, module-level "
+            "non-constant bindings, function attributes, mutable defaults) in the 18 functions reachable from the C02 operators, decided "
+            "empty (helper_state_uses_none; history_independent / reduce_after_history: a modelled call is a function of its arguments "
+            "whatever was called before), and by exact differential correspondence on integer-valued tensors of shape (b, c, [s], h, w, 2) with the "
             "coil axis at every position, in contiguous / permuted / strided / offset / stride-0 layouts, float32 and float64, singleton "
             "(broadcast) axes, with every argument checked to come back unmodified.",
     "note": "Trusted: Lean kernel (+propext, Classical.choice, Quot.sound), the AST translator, torch elementwise float32/float64 "
@@ -51,7 +54,8 @@ MANIFEST = {
             "(modelled as coded, exercised by correspondence and oracle).",
     "technique": "Lean 4 proof (Mathlib complex numbers, finite sums, matrices; core-Lean index arithmetic for the tensor refinement) + AST "
                  "translation bridge + decided structural call-site table + exact differential correspondence + property oracle (exact "
-                 "adjointness on integer tensors, call histories on shared buffers, layouts, dtypes, real inline expressions evaluated)",
+                 "adjointness on integer tensors, call histories on shared buffers and on released / re-allocated / NumPy-shared / .data-written "
+                 "maps checked at every step, layouts, dtypes, real inline expressions evaluated)",
 }
 TRUSTED = [
     "Lean 4.33 kernel; axioms ⊆ {propext, Classical.choice, Quot.sound}",
@@ -72,6 +76,9 @@ ASSUMPTIONS = [
     "magnitude) for operand scales 1e-18..1e18 (common scale) / 1e-9..1e9 (mixed scales)",
     "float16 / int64 arguments (outside the stated float32 quantifier) are exercised by the history oracle only: values must equal the "
     "native result on small integers, float dtypes must be preserved",
+    "allocation histories (>= 20 fresh same-shape maps, each released before the next is drawn; torch.empty after del) rely on the CPU "
+    "allocator handing the freed address out again — observed in every such case (bucket suffix /address-reused); the NumPy-shared, "
+    ".data and alias-object histories do not depend on the allocator",
     "call sites inside whole-network forward methods are covered structurally (table + decided predicate) and by evaluating the written "
     "expression / axis on tensors, not by running the network",
 ]
@@ -1061,6 +1068,97 @@ def _history_case(T, seed):
     return bad, f"{dts}/dim{dim}" + ("/negative-dim" if neg else "") + ("/sens-singleton" if bc else "")
 
 
+def _alloc_history_case(T, seed):
+    """call histories in which the ARGUMENT OBJECTS change identity or content in ways a cache keyed on tensor identity / version
+    counter cannot see: (a) a stream of >= 20 fresh sensitivity maps of one shape, each released before the next is allocated (the
+    allocator hands out the same address again), (b) a map sharing its memory with a NumPy array that is rewritten through NumPy,
+    (c) writes through `.data` / `set_` / `torch.from_numpy(t.numpy())` aliases, (d) `torch.empty` re-using freed storage.  After
+    EVERY step reduce / expand / conjugate / complex_multiplication are compared with an independent native reference computed
+    from the values the map holds at that moment, and adjointness is checked exactly.
+    -> (failures [(key, what, observed)], bucket)"""
+    import random
+
+    r = random.Random(seed)
+    base = _cshape(r)
+    base.pop(1)
+    dim = r.randrange(len(base) + 1)
+    c = r.choice([2, 3, 4])
+    ss = base[:dim] + [c] + base[dim:]
+    dt = r.choice([torch.float32, torch.float32, torch.float64])
+    mode = r.choice(["fresh-stream", "fresh-stream", "numpy-shared", "data-write", "empty-reuse", "alias-objects"])
+    steps = r.randint(20, 28) if mode in ("fresh-stream", "empty-reuse") else r.randint(4, 8)
+    neg = r.random() < 0.3
+    da = dim - (len(base) + 2) if neg else dim
+    C = lambda t: torch.view_as_complex(t.double().clone(memory_format=torch.contiguous_format))  # noqa: E731
+    R = lambda z: torch.view_as_real(z)  # noqa: E731
+    bad, reused, ptrs = [], 0, set()
+    new_vals = lambda sh: _ints(r, sh + [2], -4, 4).to(dt)  # noqa: E731
+
+    def check(step, S, x, y):
+        vals = S.detach().clone()                      # what the map holds NOW (independent of the object's identity / version)
+        refs = {"reduce_operator": R((C(vals).conj() * C(y)).sum(dim)), "expand_operator": R(C(vals) * C(x).unsqueeze(dim)),
+                "conjugate": R(C(vals).conj().resolve_conj()), "complex_multiplication": R(C(vals) * C(y)),
+                "complex_dot_product": R((C(vals).conj() * C(y)).sum(dim))}
+        calls = {"reduce_operator": lambda: T.reduce_operator(y, S, dim=da), "expand_operator": lambda: T.expand_operator(x, S, dim=da),
+                 "conjugate": lambda: T.conjugate(S), "complex_multiplication": lambda: T.complex_multiplication(S, y),
+                 "complex_dot_product": lambda: T.complex_dot_product(S, y, [da])}
+        outs = {}
+        for name, fn in calls.items():
+            try:
+                o = fn()
+            except Exception as e:  # noqa: BLE001
+                bad.append((f"alloc-history/raises:{name}", f"{name} raises {err_name(e)} at step {step} of a `{mode}` history", repr(e)[:160]))
+                continue
+            outs[name] = o
+            if o.shape != refs[name].shape or not torch.equal(o.double(), refs[name]):
+                bad.append((f"alloc-history/value:{name}", f"{name} differs from native complex arithmetic at step {step} of a `{mode}` call "
+                                                            f"history (maps of one shape {ss}; the result belongs to an EARLIER map)",
+                            float((o.double() - refs[name]).abs().max()) if o.shape == refs[name].shape else list(o.shape)))
+        if "reduce_operator" in outs and "expand_operator" in outs:
+            lhs = complex((C(outs["expand_operator"]).conj() * C(y)).sum())
+            rhs = complex((C(x).conj() * C(outs["reduce_operator"])).sum())
+            if lhs != rhs:
+                bad.append(("alloc-history/adjointness", f"<E x, y> != <x, R y> at step {step} of a `{mode}` call history", [str(lhs), str(rhs)]))
+
+    S = keep = arr = None
+    for step in range(steps):
+        x, y = new_vals(base), new_vals(ss)
+        if mode == "fresh-stream":
+            del S                                       # release the previous map, then draw a new one of the same shape
+            S = new_vals(ss)
+        elif mode == "empty-reuse":
+            del S
+            S = torch.empty(ss + [2], dtype=dt)         # typically the storage just freed
+            S.copy_(new_vals(ss))
+        elif mode == "numpy-shared":
+            if step == 0:
+                arr = new_vals(ss).numpy().copy()
+                S = torch.from_numpy(arr)
+            else:
+                arr[...] = new_vals(ss).numpy()          # rewritten through NumPy: no version bump
+        elif mode == "data-write":
+            if step == 0:
+                S = new_vals(ss)
+            elif step % 2:
+                S.data.copy_(new_vals(ss))               # `.data` has its own version counter
+            else:
+                S.data = new_vals(ss)                    # the same object now points at other storage
+        else:                                           # alias-objects: new tensor objects over the same memory
+            if step == 0:
+                keep = new_vals(ss)
+                S = keep
+            else:
+                keep.numpy()[...] = new_vals(ss).numpy()
+                S = r.choice([lambda: torch.from_numpy(keep.numpy()), lambda: torch.empty(0, dtype=dt).set_(keep.untyped_storage(), 0, keep.shape, keep.stride()),
+                              lambda: keep.detach(), lambda: keep.view(keep.shape)])()
+        p = S.data_ptr()
+        reused += p in ptrs
+        ptrs.add(p)
+        check(step, S, x, y)
+        del x, y
+    return bad, mode + ("/address-reused" if reused else "") + ("/f64" if dt == torch.float64 else "")
+
+
 def _safe_divide_case(T, seed):
     """one random case of safe_divide (everything derived from `seed`) -> (failures, bucket)"""
     import random
@@ -1287,6 +1385,13 @@ def oracle(ctx: Ctx, deep: bool = False):
         ctx.count(("history", seed), True, bucket="oracle/history/" + bucket)
         for key, what, obs in bad:
             yield Violation(key, what, {"op": "history", "seed": seed, "law": key, "observed": obs})
+    # (2c') histories in which argument OBJECTS are released / re-allocated / rewritten behind the version counter
+    for _ in range(ctx.budget(24, 200) * (3 if deep else 1)):
+        seed = rng.randrange(2 ** 31)
+        bad, bucket = _alloc_history_case(T, seed)
+        ctx.count(("alloc-history", seed), True, bucket="oracle/alloc-history/" + bucket)
+        for key, what, obs in bad:
+            yield Violation(key, what, {"op": "alloc-history", "seed": seed, "law": key, "observed": obs})
     # (2d) every inline site of the translated call-site table: the real source expression, evaluated
     rows = _site_rows()
     site_kinds: dict[str, int] = {}
@@ -1488,6 +1593,9 @@ def replay(rep: dict) -> bool:
             return False
         if op == "history":
             bad, _ = _history_case(T, rep["seed"])
+            return any(k == rep["law"] for k, _, _ in bad)
+        if op == "alloc-history":
+            bad, _ = _alloc_history_case(T, rep["seed"])
             return any(k == rep["law"] for k, _, _ in bad)
         if op == "site-eval":
             for row in _site_rows():
